@@ -57,6 +57,10 @@ RULE = ('masks: circle (centred/off-centre), hexagon (both orientations, shifted
         'normalize, a copy / a rescaled copy of the mask, the same buffer refilled in place with another support, the '
         'order of the modes, the function called), every call compared with the model (= the answer of a fresh '
         'process) and with numpy lstsq on the modes of that call; '
+        'in histories the caller also EDITS IN PLACE the (rho, theta) arrays it got from zernike_coordinates(mask) before '
+        'a default-coordinate call, scribbles over or keeps every returned array (later calls must neither notice nor '
+        'overwrite it), and np.geterr() must be unchanged by every call; ONE-SAMPLE masks (corner / edge / centre / 1x1 '
+        'array) with piston; '
         'LARGE ARRAYS (4 per quick run, ~50 per thorough run + corpus/c12/big_and_high_modes.json): masks given by a '
         'recipe, opd.size * len(modes) around and above 2**20 (0.9x .. 2x), both normalisations, fit / remove / compose, '
         'oracle only; HIGH NOLL INDICES: modes drawn from 1..45 (unordered, gapped; permutations of 1..k), linear '
@@ -386,7 +390,8 @@ def substeps(c):
 def step_label(i, st):
     return (f"call {i + 1} of the history ({st['call']}, {'supplied' if st.get('crd') else 'default'} coordinates, "
             f"normalize={st.get('nrm', True) if st['call'] != 'remove' else True}, mask={st.get('mask', 'buf')}, "
-            f"modes {st.get('modes', 'same')})")
+            f"modes {st.get('modes', 'same')}"
+            + (', after the caller edited in place the arrays it got from zernike_coordinates(mask)' if st.get('pre') == 'edit_coords' else '') + ')')
 
 
 def run_history(c):
@@ -394,6 +399,7 @@ def run_history(c):
     subs = substeps(c)
     buf = mask_np({'mask': c['mask'], 'mask_dtype': c.get('mask_dtype', 'float')}).copy()
     out = []
+    held = []
     for st, sub in zip(c['steps'], subs):
         try:
             p = prep(sub)
@@ -417,16 +423,38 @@ def run_history(c):
                 # this call is specified with, in the same array object
                 m[...] = p['mask']
             rho, theta, nrm = p['rho'], p['theta'], p['nrm']
+            if st.get('pre') == 'edit_coords':
+                # the caller asks for the coordinate system of this mask and edits ITS arrays in place (e.g. to build a
+                # rotated frame of its own); the library's default frame in later calls must not move
+                ur, ut = lentil.zernike_coordinates(m)
+                ut += 0.5
+                ur *= 0.75
+            err0 = np.geterr()
             if st['call'] == 'compose':
-                out.append({'arr': np.asarray(lentil.zernike_compose(m, p['w'], nrm, rho, theta), dtype=float)})
+                raw = lentil.zernike_compose(m, p['w'], nrm, rho, theta)
+                key = 'arr'
             elif st['call'] == 'fit':
-                out.append({'coeffs': np.asarray(lentil.zernike_fit(p['y'].copy(), m, sub['modes'], nrm, rho, theta), dtype=float)})
+                raw = lentil.zernike_fit(p['y'].copy(), m, sub['modes'], nrm, rho, theta)
+                key = 'coeffs'
             else:
-                out.append({'arr': np.asarray(lentil.zernike_remove(p['y'].copy(), m, sub['modes'], rho=rho, theta=theta), dtype=float)})
+                raw = lentil.zernike_remove(p['y'].copy(), m, sub['modes'], rho=rho, theta=theta)
+                key = 'arr'
+            res = {key: np.array(raw, dtype=float, copy=True)}
+            if np.geterr() != err0:
+                res['errstate_changed'] = True
+            out.append(res)
+            if isinstance(raw, np.ndarray) and raw.size:
+                if len(out) % 2 == 1:
+                    raw[...] = 777.25          # the caller scribbles over ITS result: later calls must not notice
+                else:
+                    held.append((len(out) - 1, key, raw))   # ... or keeps it: later calls must not overwrite it
         except AssertionError:
             raise
         except Exception as e:
             out.append({'err': 'ValueError' if isinstance(e, ValueError) else type(e).__name__})
+    for i, key, raw in held:
+        if not np.array_equal(np.asarray(raw, dtype=float), out[i][key]):
+            out[i]['overwritten_later'] = True
     return {'steps': out}
 
 
@@ -434,6 +462,10 @@ def oracle_step(sub, impl):
     """one call of a history against numpy's own least-squares solution on the modes of THAT call"""
     if 'err' in impl:
         return f'zernike_{sub["op"]} raised {impl["err"]} on a well-formed call'
+    if impl.get('overwritten_later'):
+        return f'the array returned by zernike_{sub["op"]} was overwritten by a later call (it is a view of library memory)'
+    if impl.get('errstate_changed'):
+        return f'zernike_{sub["op"]} changed the caller\'s numpy error state (np.geterr())'
     lentil = C.import_lentil()
     p = prep(sub)
     mask = p['mask']
@@ -469,6 +501,13 @@ def oracle_step(sub, impl):
 def gen_mask(rng, size):
     """size: 'tiny' (4..5), 'small' (6..9) or 'large' (10..16)"""
     lentil = C.import_lentil()
+    if size != 'large' and rng.random() < 0.06:
+        # degenerate but legal: exactly ONE lit sample (corner, edge, centre, or a 1x1 array); piston is the one
+        # mode set that is independent there (the default rho is 0/0 at that sample, piston never looks at it)
+        n, m = rng.choice([(1, 1), (1, 4), (3, 1), (4, 5), (5, 5), (6, 3)])
+        a = [[0] * m for _ in range(n)]
+        a[rng.randrange(n)][rng.randrange(m)] = rng.choice([1, 1, 2, -1])
+        return 'onesample', a
     for _ in range(50):
         if size == 'tiny':
             n, m = rng.randint(4, 5), rng.randint(4, 5)
@@ -613,7 +652,7 @@ def gen_history(rng, size, kind, mask, modes):
         c['mask_dtype'] = rng.choice(['float', 'float', 'int', 'bool', 'uint8', 'int32'])
     if rng.random() < 0.2:
         c['scale'] = rng.choice(['1/1000000000', '1/1000000', '250'])
-    if rng.random() < 0.5:
+    if rng.random() < 0.5 and kind != 'onesample':      # (other modes are undefined at the single sample: rho = 0/0)
         c['extra'] = [rnd_frac(rng) if rng.random() < 0.5 else '0' for _ in range(rng.randint(1, 4))]
     if rng.random() < 0.5:
         c['noise'] = [[rng.randint(-16, 16) for _ in range(m)] for _ in range(n)]
@@ -629,9 +668,10 @@ def gen_history(rng, size, kind, mask, modes):
     cur = {'call': 'fit' if call == 'mixed' else call, 'crd': rng.choice(crds), 'nrm': rng.random() < 0.5, 'mask': 'buf', 'modes': 'same'}
     steps = [dict(cur)]
     for _ in range(rng.randint(1, 3)):
-        what = rng.choice(['crd', 'crd', 'crd', 'nrm', 'maskobj', 'refill', 'modes', 'call'])
+        what = rng.choice(['crd', 'crd', 'crd', 'nrm', 'maskobj', 'refill', 'modes', 'call', 'edit_coords', 'edit_coords'])
         cur = dict(cur)
         cur['mask'] = 'buf'
+        cur.pop('pre', None)
         if what == 'crd':
             cur['crd'] = rng.choice([x for x in crds if x != cur['crd']])
         elif what == 'nrm':
@@ -643,6 +683,9 @@ def gen_history(rng, size, kind, mask, modes):
         elif what == 'refill' and c.get('mask2'):
             refilled = any(s.get('mask') == 'refill2' for s in steps) and not any(s.get('mask') == 'refill1' for s in steps)
             cur['mask'] = 'refill1' if refilled else 'refill2'
+        elif what == 'edit_coords':
+            cur['pre'] = 'edit_coords'
+            cur['crd'] = None                   # ... and then relies on the library's default frame
         elif what == 'modes' and len(modes) > 1:
             cur['modes'] = 'reversed' if cur['modes'] == 'same' else 'same'
         else:
@@ -766,6 +809,8 @@ def generate(rng, tier):
         tiny = size == 'tiny'
         kind, mask = gen_mask(rng, size)
         modes = gen_modes(rng, size, tier)
+        if kind == 'onesample':
+            modes = [1]
         if size != 'large' and rng.random() < 0.22:
             c = gen_history(rng, size, kind, mask, modes)
             if c is None:
@@ -803,7 +848,7 @@ def generate(rng, tier):
             c['expect_error'] = True
         if op not in ('compose', 'basis'):
             n, m = len(mask), len(mask[0])
-            if rng.random() < 0.6:     # content in modes that are not fitted / removed
+            if rng.random() < 0.6 and kind != 'onesample':     # content in modes that are not fitted / removed
                 c['extra'] = [rnd_frac(rng) if rng.random() < 0.5 else '0' for _ in range(rng.randint(1, 4 if tiny else 11))]
             if rng.random() < 0.7:     # dyadic noise, also outside the mask
                 c['noise'] = [[rng.randint(-16, 16) for _ in range(m)] for _ in range(n)]
